@@ -97,3 +97,87 @@ def check_C10(tier, seed, t0):
     return finish('C10', tier, seed, t0, proof, viol, cov,
                   ["theorems are about Hal.expand (transcription of src/interface.rs); tie = wire-projection correspondence",
                    "Linux chunking branch only (cfg!(target_os = linux))", "12.48in driver: see C15"])
+
+# ---------------------------------------------------------------------------------------------- pure properties
+U32 = 1 << 32
+
+def rect_oracle(query, real):
+    """Does the REAL answer to a rect query contradict C16?  -> True (fails) / False (consistent) / None (outside the precondition)"""
+    q = query.split()
+    if q[0] == 'rect_i':
+        ax, ay, aw, ah, bx, by, bw, bh = map(int, q[1:9])
+        if ax + aw >= U32 or ay + ah >= U32 or bx + bw >= U32 or by + bh >= U32:
+            return None
+        if 'PANIC' in real or 'no answer' in real:
+            return True
+        t = real.replace('=', ' ').split()
+        x, y, w, h, e = map(int, t[:5])
+        ix0, ix1 = max(ax, bx), min(ax + aw, bx + bw)
+        iy0, iy1 = max(ay, by), min(ay + ah, by + bh)
+        empty = ix1 <= ix0 or iy1 <= iy0
+        if empty:
+            return not ((w == 0 or h == 0) and e == 1)
+        return not ((x, y, w, h) == (ix0, iy0, ix1 - ix0, iy1 - iy0) and e == 0)
+    if q[0] == 'rect_s':
+        ax, ay, aw, ah, dx, dy = map(int, q[1:7])
+        if dx > ax or dy > ay:
+            return None
+        if 'PANIC' in real or 'no answer' in real:
+            return True
+        t = real.replace('=', ' ').split()
+        return tuple(map(int, t[:4])) != (ax - dx, ay - dy, aw, ah)
+    return None
+
+def pure_check(prop, group, prop_files, tier, seed, t0, assumptions, unique=True, release_too=False, extra_groups=()):
+    import pure
+    proof = proof_status(prop_files, clean=(tier == 'thorough'))
+    viol = []
+    cov = dict(evaluations=0, queries=0, correspondence_mismatches=0, input_distribution={}, samples=[], harness_or_model_errors=[])
+    try:
+        builds = pure.build(False)
+        runs = [(g, False) for g in (group,) + tuple(extra_groups)]
+        if release_too and group != 'rect':
+            runs.append((group, True))
+        relb = None
+        for g, rel in runs:
+            if rel and relb is None:
+                relb = pure.build(True)
+            r = pure.run(g, tier, seed, release=rel, builds=(relb if rel else builds), oracle=(rect_oracle if g == 'rect' else None))
+            cov['evaluations'] += r['evaluations']
+            cov['queries'] += r['queries']
+            cov['correspondence_mismatches'] += r['n_mismatches']
+            cov['input_distribution'][g + ('-release' if rel else '')] = r['distribution']
+            cov['harness_or_model_errors'] += r['errors'][:5]
+            for m in r['mismatches'][:40]:
+                fails = rect_oracle(m['query'], m['real']) if g == 'rect' else (True if unique else None)
+                concrete = m['query'].split()[0] not in ('rect_sweep', 'buflen_sweep', 'var_sweep', 'setpix_sweep',
+                                                         'rgb888_sweep', 'rgb565_sweep', 'rgb555_sweep', 'color_table') \
+                    or m['where'].startswith('T ') or ' = ' not in m['where'] and m['query'].startswith('color_table')
+                v = dict(panel='pure', site=m['query'].split()[0], clause='model-vs-code:' + m['where'][:80],
+                         detail="real: %s | model (proved to satisfy %s): %s" % (m['real'], prop, m['model']),
+                         replay=dict(kind='pure', group=g, release=rel, query=m['query'], where=m['where'], real=m['real'], model=m['model']))
+                if not (fails and concrete):
+                    v['no_input'] = True
+                viol.append(v)
+            viol.sort(key=lambda v: 1 if v.get('no_input') else 0)
+            if r['errors'] and not r['mismatches']:
+                viol.append(dict(panel='pure', site='harness', clause='run-error', no_input=True, detail='; '.join(r['errors'][:3])[:600],
+                                 replay=dict(kind='pure', group=g, errors=r['errors'][:5])))
+            if not cov['samples']:
+                cov['samples'] = list(r['distribution'].keys())[:3]
+    except Exception as e:
+        viol.append(dict(panel='pure', site='build', clause='build-failed', no_input=True, detail=str(e)[-1500:],
+                         replay=dict(kind='build', log=str(e)[-3000:])))
+    if not proof['ok']:
+        viol.append(proof_violation(prop, proof))
+    cov['traces_validated_against_impl'] = cov['evaluations']
+    cov['distinct_nontrivial'] = cov['queries']
+    cov['rule'] = ("queries answered by the real crate (harness `epdh pure`) and by the extracted Coq model (proved to satisfy the property); "
+                   "sweep queries cover whole ranges and are summarised by two rolling hashes; a differing sweep line is expanded into "
+                   "its individual inputs; distinct_nontrivial counts distinct query lines")
+    return finish(prop, tier, seed, t0, proof, viol, cov, assumptions)
+
+def check_C16(tier, seed, t0):
+    return pure_check('C16', 'rect', ['Properties/C16.v'], tier, seed, t0,
+                      ["theorems are about Pure/Rect.v (transcription of src/rect.rs, u32 overflow = None); tie = pure correspondence (exhaustive 0..12 sweeps + boundary/random u32 rectangles)",
+                       "debug-build overflow semantics (overflow panics); the property's precondition excludes overflow"])
